@@ -315,3 +315,107 @@ func (rn *runner) mixedCompare(d Doc, ref, got Trace, nm string) {
 }
 
 var _ = strings.TrimSpace
+
+// ---- (g) history: SVG text first --------------------------------------------------------------------
+
+// historyScenario: plain documents (they rely on the initial font properties) are rendered in one
+// fresh process AFTER documents with SVG <text> carrying non-default font properties, and in another
+// fresh process on their own: the traces must be the same.
+func historyScenario(rn *runner, seed uint64, tier string) {
+	out := rn.out
+	r := rng.New(seed ^ 0x5e7)
+	nA, nB := 3, 8
+	if tier == "thorough" {
+		nA, nB = 6, 30
+	}
+	var as, bs []Doc
+	for i := 0; i < nA; i++ {
+		as = append(as, genSvgTextDoc(r.Sub(), i))
+	}
+	for i := 0; i < nB; i++ {
+		if i%4 == 3 {
+			bs = append(bs, genUnitsDoc(r.Sub(), i))
+		} else {
+			bs = append(bs, genPlainDoc(r.Sub(), i))
+		}
+	}
+	alone, _, err1 := workerBatch(rn.repo, bs, "", nil)
+	after, tr, err2 := workerBatch(rn.repo, append(append([]Doc{}, as...), bs...), "", func(i int, h hashes) bool {
+		return i >= nA && alone[i-nA].canon != "" && alone[i-nA].canon != h.canon
+	})
+	for _, e := range []error{err1, err2} {
+		if e != nil {
+			out.Notes = append(out.Notes, "history scenario worker: "+e.Error())
+		}
+	}
+	for i, d := range bs {
+		a, b := alone[i], after[nA+i]
+		if a.crash != "" || b.crash != "" || a.canon == "" || b.canon == "" {
+			out.Hit("svg-text-history:skipped")
+			continue
+		}
+		rn.mu.Lock()
+		out.Hit("compare:svg-text-history")
+		rn.mu.Unlock()
+		if a.canon == b.canon {
+			continue
+		}
+		ref := renderTraceIn(rn, d) // reference text (this process)
+		got := Trace{Crash: "trace unavailable"}
+		if t := tr[nA+i]; t != nil {
+			got = *t
+		}
+		d2 := d
+		d2.HTML = d.HTML + "\n<!-- rendered after: -->\n<!-- " + strings.ReplaceAll(as[0].HTML, "--", "- -") + " -->"
+		_, la, lb, op := firstDiff(ref.Canon, got.Canon)
+		out.Add(res.Finding{Kind: "judge", Op: "judge:history", Input: d2.HTML, Impl: lb, Model: la,
+			Reason: fmt.Sprintf("the document rendered in a fresh process after %d documents with SVG <text> differs from the same document rendered in a fresh process on its own (first differing call %s: %q vs %q)", nA, op, la, lb),
+			Key:    "after-svg-text", Seed: d.Seed})
+	}
+}
+
+func renderTraceIn(rn *runner, d Doc) Trace { return renderTrace(d.HTML, rn.fonts(0), rn.repo) }
+
+// ---- (h) href chains in SVG definitions, many renders ---------------------------------------------------
+
+// chainScenario: every SVG href-chain document is rendered 20 times in this process and 2 x 5 times
+// in fresh processes; all traces must be identical.
+func chainScenario(rn *runner, seed uint64, tier string) {
+	out := rn.out
+	r := rng.New(seed ^ 0xc4a1)
+	n := 6
+	if tier == "thorough" {
+		n = 25
+	}
+	for i := 0; i < n; i++ {
+		d := genSvgChainDoc(r.Sub(), i)
+		ref := renderTrace(d.HTML, rn.fonts(0), rn.repo)
+		if ref.Crash != "" {
+			out.Hit("svg-chain:crash-skipped")
+			continue
+		}
+		bad := false
+		for k := 0; k < 19 && !bad; k++ {
+			bad = !rn.compare("svg-chain", d, ref, renderTrace(d.HTML, rn.fonts(1+k%3), rn.repo), fmt.Sprintf("render %d of 20 in the same process", k+2))
+		}
+		for p := 0; p < 2 && !bad; p++ {
+			rep := []Doc{d, d, d, d, d}
+			hs, tr, err := workerBatch(rn.repo, rep, "", func(_ int, h hashes) bool { return h.canon != hash(ref.Canon) })
+			if err != nil {
+				out.Notes = append(out.Notes, "svg-chain worker: "+err.Error())
+			}
+			for k, h := range hs {
+				if h.canon == "" {
+					continue
+				}
+				rn.mu.Lock()
+				out.Hit("compare:svg-chain")
+				rn.mu.Unlock()
+				if h.canon != hash(ref.Canon) && tr[k] != nil {
+					bad = !rn.compare("svg-chain", d, ref, *tr[k], fmt.Sprintf("render %d in fresh process #%d", k+1, p))
+					break
+				}
+			}
+		}
+	}
+}
